@@ -20,7 +20,7 @@ Definition model_agrees (c : case) : bool :=
   let m := step_repo (c_tbl c) (c_now c) (c_chain c) (c_fin c) in
   negb (k_setup_failed c)
   (* the hypotheses of model_meets_spec hold of this case *)
-  && sortedb (c_tbl c) && (in_domain (c_chain c) (c_fin c) || slice_dom (c_fin c))
+  && (is_composite (c_fin c) || sortedb (c_tbl c)) && (in_domain (c_chain c) (c_fin c) || slice_dom (c_fin c))
   && Bool.eqb (k_err c) (res_err m)
   && (k_err c || rec_eqb (k_ret c) (res_ret m))
   && list_eqb rec_eqb (k_rets c) (step_rets (c_tbl c) (c_now c) (c_fin c))
